@@ -66,7 +66,7 @@ class H(explore.Harness):
         if self.secure:
             from vt.env.iprig import IpRig
 
-            self.rig = IpRig(seed=p.get("seed", 0), auto=True)
+            self.rig = IpRig(seed=p.get("seed", 0), auto=True, env=p.get("env"))
             self.net = self.rig.net
             self.rig.acc.handler = self._app_handler
             self.loop = self.rig.loop
@@ -78,6 +78,7 @@ class H(explore.Harness):
             from aiohomekit.controller.ip.connection import HomeKitConnection
 
             self.net = vloop.SimNet(self.loop)
+            self.net.delivery = (p.get("env") or {}).get("delivery")
             self._patch = vloop.patched_network(self.net)
             self._patch.__enter__()
             self.net.auto = lambda att: ("ok", att["hosts"][0])
@@ -478,6 +479,9 @@ def run(ctx):
         dict(limit=2, callers=2, P=1, secure=False),
         dict(limit=3, callers=3, P=0 if quick else 1, secure=False),
         dict(limit=1, callers=2, P=0 if quick else 1, secure=True),
+        # the same spaces under other environments: byte-wise reads; chunked responses in reads that end inside a block
+        dict(limit=1, callers=2, P=0, secure=True, env=dict(delivery="bytes")),
+        dict(limit=2, callers=2, P=0, secure=False, resp="chunked", env=dict(delivery="3/4")),
     ]
     depth = 5 if quick else 6
     work = []
